@@ -7,6 +7,8 @@ From Mimium Require Import Bvm.Model Bvm.Verify.
 Import ListNotations.
 Local Open Scope N_scope.
 
+Definition mkFn0 pw np nr code consts jt ss : fn := mkFn pw np nr code consts jt ss [].
+
 Definition toy : arith :=
   mkArith (fun _ x y => ((x + y) mod 18446744073709551616)%Z) (fun _ x => x)
           (fun x => ((0 <? x) && (x <=? 9218868437227405312))%Z) (fun _ => 0%Z) (fun _ _ => 0%Z).
@@ -23,22 +25,22 @@ fn dsp(){
 Definition ex_stateful : program :=
   mkProg [
     (* _mimium_global *)
-    mkFn 0 0 0
+    mkFn0 0 0 0
       [Return0]
       [] [] 0;
     (* cnt *)
-    mkFn 1 1 1
+    mkFn0 1 1 1
       [GetState 1 1; Move 2 1; Move 3 0; AddF 2 2 3; SetState 2 1; Return 2 1]
       [] [] 1;
     (* g *)
-    mkFn 2 2 1
+    mkFn0 2 2 1
       [Move 2 0; Mem 2 2; Move 3 1; MoveImmF 4 4611686018427387904%Z; PushStatePos 1; MoveConst 5 0; Delay 5 3 4; AddF 2 2 5; PopStatePos 1; Return 2 1]
       [4%Z] [] 7;
     (* dsp *)
-    mkFn 0 0 2
+    mkFn0 0 0 2
       [MoveImmF 0 4607182418800017408%Z; MoveConst 1 0; Move 2 1; Move 3 0; Call 2 1 1; Move 3 2; Move 4 3; MoveImmF 5 4613937818241073152%Z; CmpGt 4 4 5; PushStatePos 1; JmpIfNeg 4 (12)%Z; Move 4 3; MoveImmF 5 4611686018427387904%Z; MoveConst 6 1; Move 7 6; Move 8 4; Move 9 5; Call 7 2 1; PushStatePos 7; PushStatePos 1; Move 11 7; Jmp (9)%Z; MoveImmF 8 4621819117588971520%Z; PushStatePos 7; MoveConst 9 0; Move 10 9; Move 11 8; Call 10 1 1; PushStatePos 1; Move 11 10; Move 12 11; Move 15 3; Move 13 15; Move 15 12; MoveConst 16 2; CallExtFun 16 0 1; AddF 15 15 16; Move 14 15; PopStatePos 9; Return 13 2]
       [1%Z; 2%Z; 0%Z] [] 9]
-    0 [ExtPure 0 0] (Some 3) [].
+    0 [ExtPure 0 0] (Some 3) [] [].
 
 (* real VM: [{"out": ["3ff0000000000000", "4024000000000000"], "pos": 0, "rc": 2, "words": [4607182418800017408, 0, 0, 0, 0, 0, 0, 0, 4621819117588971520]}, {"out": ["4000000000000000", "4035000000000000"], "pos": 0, "rc": 2, "words": [4611686018427387904, 0, 0, 0, 0, 0, 0, 0, 4626322717216342016]}, {"out": ["4008000000000000", "4040000000000000"], "pos": 0, "rc": 2, "words": [4613937818241073152, 0, 0, 0, 0, 0, 0, 0, 4629137466983448576]}, {"out": ["4010000000000000", "4008000000000000"], "pos": 0, "rc": 2, "words": [4616189618054758400, 4616189618054758400, 2, 1, 4611686018427387904, 0, 0, 0, 4629137466983448576]}] *)
 
@@ -53,22 +55,22 @@ fn dsp(){
 Definition ex_default_param : program :=
   mkProg [
     (* _mimium_global *)
-    mkFn 0 0 0
+    mkFn0 0 0 0
       [Return0]
       [] [] 0;
     (* f3 *)
-    mkFn 3 3 1
+    mkFn0 3 3 1
       [Move 3 2; Move 4 0; AddF 3 3 4; Move 4 1; AddF 3 3 4; Return 3 1]
       [] [] 0;
     (* __default_1_c *)
-    mkFn 0 0 1
+    mkFn0 0 0 1
       [MoveImmF 0 4617315517961601024%Z; Return 0 1]
       [] [] 0;
     (* dsp *)
-    mkFn 0 0 1
+    mkFn0 0 0 1
       [MoveImmF 2 4607182418800017408%Z; Move 0 2; MoveImmF 2 4617315517961601024%Z; Move 1 2; MoveConst 2 0; Move 3 2; Move 4 0; Move 5 1; Call 3 2 1; Return 3 1]
       [1%Z] [] 0]
-    0 [] (Some 3) [].
+    0 [] (Some 3) [] [].
 
 (* real VM: [{"panic": "range end index 8 out of range for slice of length 7"}] *)
 
@@ -85,36 +87,36 @@ fn dsp(){
 Definition ex_sum_match : program :=
   mkProg [
     (* _mimium_global *)
-    mkFn 0 0 0
+    mkFn0 0 0 0
       [Return0]
       [] [] 0;
     (* cnt *)
-    mkFn 1 1 1
+    mkFn0 1 1 1
       [GetState 1 1; Move 2 1; Move 3 0; AddF 2 2 3; SetState 2 1; Return 2 1]
       [] [] 1;
     (* f0 *)
-    mkFn 3 2 1
+    mkFn0 3 2 1
       [MoveRange 3 0 2; Move 5 3; JmpTable 5 0; Move 5 2; MoveConst 6 0; Move 7 6; Move 8 5; Call 7 1 1; PushStatePos 1; PushStatePos 6; Move 12 7; Jmp (21)%Z; Move 8 2; PushStatePos 1; Mem 8 8; MoveImmF 9 4611686018427387904%Z; MulF 8 8 9; PushStatePos 1; PushStatePos 5; Move 12 8; Jmp (12)%Z; Move 9 4; Move 10 9; Move 11 10; MoveImmF 12 4607182418800017408%Z; PushStatePos 2; MoveConst 13 1; Delay 13 11 12; Move 14 2; AddF 11 13 14; PushStatePos 5; Move 12 11; PopStatePos 7; Return 12 1]
       [1%Z; 3%Z] [mkJT (0)%Z [(1)%Z; (10)%Z; (19)%Z; (19)%Z]] 7;
     (* dsp *)
-    mkFn 0 0 1
+    mkFn0 0 0 1
       [MoveConst 0 0; MoveConst 1 0; CloneUserSum 0 2 0; MoveConst 2 0; CallExtFun 2 0 1; MoveConst 3 1; Move 4 3; MoveRange 5 0 2; Move 7 2; Call 4 3 1; MoveImmF 5 4617315517961601024%Z; MoveConst 6 1; MoveConst 7 0; Move 7 5; CloneUserSum 6 2 0; MoveImmF 8 4611686018427387904%Z; PushStatePos 7; MoveConst 9 1; Move 10 9; MoveRange 11 6 2; Move 13 8; Call 10 3 1; AddF 0 4 10; MoveConst 1 2; MoveConst 2 0; CloneUserSum 1 2 0; MoveImmF 3 4607182418800017408%Z; PushStatePos 7; MoveConst 4 3; Move 5 4; MoveRange 6 1 2; Move 8 3; Call 5 3 1; AddF 0 0 5; PopStatePos 14; Return 0 1]
       [0%Z; 2%Z; 1%Z; 2%Z] [] 21]
-    0 [ExtPure 0 0] (Some 3) [true].
+    0 [ExtPure 0 0] (Some 3) [true] [].
 
 (* real VM: [{"out": ["4000000000000000"], "pos": 0, "rc": 1, "words": [0, 0, 0, 0, 0, 0, 0, 0, 0, 2, 1, 4617315517961601024, 0, 0, 0, 4607182418800017408, 0, 0, 0, 0, 0]}, {"out": ["4024000000000000"], "pos": 0, "rc": 1, "words": [4607182418800017408, 0, 0, 0, 0, 0, 0, 0, 0, 0, 2, 4617315517961601024, 4617315517961601024, 0, 0, 4607182418800017408, 0, 0, 0, 0, 0]}, {"out": ["4028000000000000"], "pos": 0, "rc": 1, "words": [4613937818241073152, 0, 0, 0, 0, 0, 0, 0, 0, 1, 0, 4617315517961601024, 4617315517961601024, 4617315517961601024, 0, 4607182418800017408, 0, 0, 0, 0, 0]}] *)
 
 (* reads register 5 although nothing above register 0 was written *)
 Definition ex_read_above : program :=
-  mkProg [mkFn 0 0 0 [Return0] [] [] 0;
-          mkFn 0 0 1 [MoveImmF 0 0%Z; Move 1 5; Return 1 1] [] [] 0]
-    0 [] (Some 1) [].
+  mkProg [mkFn0 0 0 0 [Return0] [] [] 0;
+          mkFn0 0 0 1 [MoveImmF 0 0%Z; Move 1 5; Return 1 1] [] [] 0]
+    0 [] (Some 1) [] [].
 
 (* pushes the state cursor past its only cell and reads there *)
 Definition ex_unbalanced : program :=
-  mkProg [mkFn 0 0 0 [Return0] [] [] 0;
-          mkFn 0 0 1 [PushStatePos 1; GetState 0 1; Return 0 1] [] [] 1]
-    0 [] (Some 1) [].
+  mkProg [mkFn0 0 0 0 [Return0] [] [] 0;
+          mkFn0 0 0 1 [PushStatePos 1; GetState 0 1; Return 0 1] [] [] 1]
+    0 [] (Some 1) [] [].
 
 (* the machine after Machine::new and execute_main *)
 Definition after_main (p : program) : option mach :=
